@@ -109,6 +109,18 @@ def walk_envelope(desc, env_bytes, files, path, out, drv=None):
                 out.append((kind, path + [kk, name], files[v].hex() if v in files else v.lower(), got))
             elif isinstance(v, str):
                 out.append(("payload:path" if not v.endswith(".suit") else "dependency:path", path + [kk, name], files[v].hex(), got))
+    # digests that create recalculates from the envelope's own content are C01's subject: a reference supplied there does not survive (and must not)
+    d = dict(d)
+    aw = d.get("suit-authentication-wrapper")
+    if isinstance(aw, dict) and isinstance(aw.get("SuitDigest"), dict) and isinstance(aw["SuitDigest"].get("suit-digest-bytes"), dict):
+        d["suit-authentication-wrapper"] = {**aw, "SuitDigest": {**aw["SuitDigest"], "suit-digest-bytes": ""}}
+    mf = d.get("suit-manifest")
+    if isinstance(mf, dict):
+        mf = dict(mf)
+        for k in ("suit-payload-fetch", "suit-install", "suit-install-legacy", "suit-dependency-resolution", "suit-candidate-verification", "suit-text"):
+            if k in d and isinstance(mf.get(k), dict) and isinstance(mf[k].get("suit-digest-bytes"), dict):
+                mf[k] = {**mf[k], "suit-digest-bytes": ""}
+        d["suit-manifest"] = mf
     walk(d, p, files, path, out)
 
 
